@@ -263,9 +263,10 @@ def run(ctx):
               'std_thread jobs whose callables yield, boost-yield, suspend (semaphore, mutex) and spawn children; every callable '
               'records pool, local/global worker, task id, OS thread id in every phase; monitors check inline/pool/static-hint '
               'placement; the extracted model replays the trace as an acceptor; non-trivial = a case with a static pool, hinted '
-              'tasks and at least one suspension or yield; plus five scenarios (E6 elastic, yield_to, boost with H<W, shared-priority with an out-of-range hint, '
+              'tasks and at least one suspension or yield; plus the scenarios (E6 elastic, yield_to, boost with H<W, shared-priority with an out-of-range hint 30000+i (sphint) / -1 (sphintneg), '
               'firstsusp: several hundred tasks of a static pool whose very first action is a contended pika::mutex, the unlocking tasks being the wakers, with '
-              'hook 205 keeping a waiter active after it enqueued itself and hook 1001 holding the retry helper between its read of the last worker and its retry); '
+              'hook 205 keeping a waiter active after it enqueued itself and hook 1001 holding the retry helper between its read of the last worker and its retry; '
+              'firstsuspsp: the same with a shared-priority default pool, where a wake-up carrying hint -1 used to crash the scheduler); '
               'bulk cases (harness/c10_bulk.cpp): bulk on pool A (two thirds static policies, W 1-5) after schedule/then/transfer_just/continues_on/bulk predecessors, '
               'hints and priorities, started from OS threads and tasks; every f(i) records the calling task_function (hook 1103), pool and worker; monitors + the extracted '
               'acceptor bulk_allowed; non-trivial = a static bulk pool with at least one call from a spawned worker task')
@@ -276,11 +277,11 @@ def run(ctx):
     rng = random.Random(ctx.seed)
     if ctx.tier == 'quick':
         ncases, njobs = 48, 24
-        scen = [('e6', 2500), ('e6', 2500), ('yieldto', 100), ('yieldto', 100), ('yieldto', 100), ('boost', 12), ('sphint', 3),
-                ('firstsusp', 400)] + [('firstsusp', 400)] * 4
+        scen = [('e6', 2500), ('e6', 2500), ('yieldto', 100), ('yieldto', 100), ('yieldto', 100), ('boost', 12), ('sphint', 3), ('sphintneg', 3),
+                ('firstsusp', 400)] + [('firstsusp', 400)] * 4 + [('firstsuspsp', 400)] * 3
     else:
         ncases, njobs = 800, 40
-        scen = [('e6', 3000), ('yieldto', 100), ('boost', 24)] * 4 + [('sphint', 3)] + [('firstsusp', 400)] * 12
+        scen = [('e6', 3000), ('yieldto', 100), ('boost', 24)] * 4 + [('sphint', 3), ('sphintneg', 3)] + [('firstsusp', 400)] * 12 + [('firstsuspsp', 400)] * 30
     cases = [('rand', njobs)] * ncases + scen
     base = rng.randrange(1, 1 << 30)
     all_in, all_out = [], []
@@ -295,7 +296,10 @@ def run(ctx):
             continue
         if rc != 0 or done is None or 'completed=1' not in done:
             # a hang / crash of the real runtime is a failure of the property's run: report it with the replay
-            sig = 'C10:shared_priority:hint_out_of_range' if mode == 'sphint' else 'C10:run:hang_or_crash'
+            # sphint / sphintneg: the user passes the out-of-range hint (known finding).  firstsuspsp: shared-priority default
+            # pool, every hint in range - a crash there means a WAKE-UP carried an invalid hint again (the route closed by
+            # recording the worker at the start of every phase): reported, not known
+            sig = 'C10:shared_priority:hint_out_of_range' if mode in ('sphint', 'sphintneg') else 'C10:run:hang_or_crash'
             r.hits.append(Hit('monitor', sig,
                               'runtime hung or crashed in case %d (%s): rc=%d %s %s' % (ci, mode, rc, done, ' | '.join(other)[-400:]), replay))
         mh, nplace = monitors(pools, tasks, recs, mode)
